@@ -25,7 +25,9 @@ type Analysis struct {
 	Gate1, Gate2, Gate3 *GateInfo
 	ListLang            map[*ssa.Global]*SpecLang // T5: which language a list variable holds
 	ListOfLang          map[string]*ssa.Global
+	EncList             map[string]*ssa.Global    // T2: list the encoder indexes per language
 	MapOf               map[string]*ssa.Global    // T3: lookup map per language name
+	MapList             map[*ssa.Global]*ssa.Global // T3: list a lookup map is the inverse of
 	OnceFn              map[*ssa.Global]*ssa.Function // T3: map -> its builder
 	Source              *ssa.Global               // F3: the randomness source variable
 	evals               map[string]*Eval
@@ -117,7 +119,7 @@ func sameKind(a, b ssa.Instruction) bool {
 // NewAnalysis resolves the anchors and runs all rules.
 func NewAnalysis(p *Program) *Analysis {
 	a := &Analysis{P: p, R: NewResult(), evals: map[string]*Eval{}, ListLang: map[*ssa.Global]*SpecLang{}, ListOfLang: map[string]*ssa.Global{},
-		MapOf: map[string]*ssa.Global{}, OnceFn: map[*ssa.Global]*ssa.Function{}}
+		MapList: map[*ssa.Global]*ssa.Global{}, EncList: map[string]*ssa.Global{}, MapOf: map[string]*ssa.Global{}, OnceFn: map[*ssa.Global]*ssa.Function{}}
 	a.G = BuildGlobals(p)
 	a.Ef = BuildEffects(p)
 	a.NME = p.Root.Func("NewMnemonicByEntropy")
@@ -182,7 +184,7 @@ func (a *Analysis) RunAll() {
 		name string
 		f    func()
 	}{
-		{"T1", a.ruleT1}, {"T5", a.ruleT5}, {"E2", a.ruleE2}, {"T3", a.ruleT3}, {"G", a.ruleGates}, {"S1", a.ruleS1},
+		{"T1", a.ruleT1}, {"T5", a.ruleT5}, {"E2", a.ruleE2}, {"G", a.ruleGates}, {"S1", a.ruleS1}, {"T3", a.ruleT3},
 		{"T2", a.ruleT2T6}, {"T4", a.ruleT4}, {"F3", a.ruleF3}, {"E1", a.ruleE1}, {"F1", a.ruleF1}, {"F2", a.ruleF2}, {"F4", a.ruleF4},
 		{"S2", a.ruleS2}, {"S3", a.ruleS3}, {"L", a.ruleLayouts}, {"P", a.ruleP}, {"W", a.ruleW},
 	}
@@ -196,6 +198,7 @@ func (a *Analysis) RunAll() {
 			s.f()
 		}()
 	}
+	a.finishE1()
 	a.R.Counts["contexts"] = a.Contexts
 }
 
